@@ -635,3 +635,36 @@ Proof.
   intros h lvl nl g1 g2 bb hd b b1 strict. exact (early_return_keeps_walks h lvl nl g1 g2 bb hd b b1 strict).
 Qed.
 Print Assumptions C01_early_return_any_level_preserves_paths.
+
+(* a block inserted in front of ONE successor (join_tails_and_exits, insert_SyntheticFill during branch
+   restructuring) at ANY level of a hierarchy keeps every flat walk; the predecessors are blocks of the level
+   (branching synthetic blocks, whose tables follow, included), the successor may be a region.  Model:
+   InsHier.insert_block_h (the flat model on the level's dictionary, compared with the code on every call of
+   the pipeline); proof by the same route as the rotation (Flatten, InsRename, LoopHierPath.link, IbPath);
+   the boolean premise is evaluated on every such call the pipeline makes. *)
+From V Require Import Model.IbPath Model.InsHierApplic.
+Theorem C01_single_successor_insertion_any_level_preserves_paths_b :
+  forall h lvl top new e0 preds cls strict,
+    walk_pre_ins h lvl top new e0 preds cls = true ->
+    exists nl g1 g1',
+      find h lvl = Some nl /\ collect h (children_h nl) = Some g1 /\
+      insert_block g1 new preds [e0] cls = Ok g1' /\
+      forall n e e' ds tr st,
+        (exists b p, find h n = Some b /\ n_kind b = KOrig p) ->
+        E Fn e e' ->
+        WTrace h (resolve_flat h) strict n e ds tr st ->
+        WTrace (write_back h lvl g1') (resolve_flat (write_back h lvl g1')) strict n e' ds tr st.
+Proof. exact insert_block_h_keeps_walks_b. Qed.
+Print Assumptions C01_single_successor_insertion_any_level_preserves_paths_b.
+
+(* non-vacuity: the tail 30 inserted between the blocks 5, 6 of the outermost level and the loop region 20 *)
+Example C01_single_successor_insertion_any_level_example :
+  walk_pre_ins [ mkNode 1 0 [] [] (KRegion 1 0 0 [4; 5; 6; 20; 7] 0 true);
+                 mkNode 4 1 [5; 6] [] (KOrig 1);
+                 mkNode 5 1 [20] [] (KOrig 1);
+                 mkNode 6 1 [20; 7] [] (KOrig 1);
+                 mkNode 7 1 [] [] (KOrig 1);
+                 mkNode 20 1 [7] [] (KRegion 2 21 21 [21] 1 true);
+                 mkNode 21 20 [21; 7] [21] (KOrig 1) ]
+               1 (-1) 30 20 [5; 6] 4 = true.
+Proof. vm_compute. reflexivity. Qed.
